@@ -270,7 +270,13 @@ void body(V::Ctx &ctx)
                 V::end_case();
                 return;
             }
-            VS::explore(sc, st, ctx.deadlineS);
+            // the tier deadline is global: give each scenario only what is left of it
+            double left = 0;
+            if (ctx.deadlineS > 0) {
+                left = ctx.deadlineS - difftime(time(nullptr), V::S().start);
+                if (left < 2) { V::S().sh->deadlineHit = 1; V::count("scenarios_skipped_at_deadline"); V::end_case(); return; }
+            }
+            VS::explore(sc, st, left);
             V::count("executions", st.executions);
             V::count("steps", st.steps);
             V::count("states", st.states);
